@@ -28,6 +28,7 @@ type dlCase struct {
 	user, at, ip  string
 	idpSub        string
 	param         *string
+	param2        *string // a second host parameter (only the first one counts)
 	paramIsToken  string // "", valid, expired, forged, wrong-issuer
 	qsub          *string
 }
@@ -118,6 +119,13 @@ func runC12(r *Run) {
 				}
 			}
 			c.param = &p
+			if rng.Intn(4) == 0 {
+				q := c.hosts[rng.Intn(len(c.hosts))]
+				if rng.Intn(2) == 0 {
+					q = "second.example:3389"
+				}
+				c.param2 = &q
+			}
 		}
 		cases = append(cases, c)
 	}
@@ -139,9 +147,15 @@ func runC12(r *Run) {
 		id.SetAuthenticated(c.auth)
 		id.SetAttribute(identity.AttrClientIp, c.ip)
 		id.SetAttribute(identity.AttrAccessToken, c.at)
+		// as EnrichContext leaves it behind a reverse proxy: the peer is the proxy, not the client
+		id.SetAttribute(identity.AttrRemoteAddr, "198.51.100.77:41000")
+		id.SetAttribute(identity.AttrProxies, []string{"198.51.100.77"})
 		q := ""
 		if c.param != nil {
 			q = "?host=" + url.QueryEscape(*c.param)
+			if c.param2 != nil {
+				q += "&host=" + url.QueryEscape(*c.param2)
+			}
 		}
 		req := httptest.NewRequest("GET", "http://gw.example.com/connect"+q, nil)
 		req = identity.AddToRequestCtx(id, req)
@@ -208,6 +222,9 @@ func runC12(r *Run) {
 		p := "<absent>"
 		if c.param != nil {
 			p = *c.param
+			if c.param2 != nil {
+				p += "\" then a second host parameter \"" + *c.param2
+			}
 		}
 		rep := fmt.Sprintf("mode=%q hosts=%q split=%v template=%q nousername=%v\nsession: authenticated=%v user=%q access token=%q address=%q (IdP subject %q)\nhost parameter: %q (%s)\nresponse: %d location=%q\n%s\nmodel: %s\n", c.mode, c.hosts, c.split, c.tmpl, c.noUser, c.auth, c.user, c.at, c.ip, c.idpSub, p, c.paramIsToken, ob.status, ob.loc, ob.body, ans[i])
 		if i < 2 {
